@@ -32,6 +32,7 @@ LevelChoices(nz) ==
     CASE LevelLists = "single" -> {<<nz \div 2>>, <<nz - 1>>}
       [] LevelLists = "mid"    -> {<<nz \div 2>>}
       [] LevelLists = "asc"    -> {<<nz \div 2>>, <<nz - 1>>, <<0, nz - 1>>, <<1, nz \div 2, nz - 1>>}
+      [] LevelLists = "mixed"  -> {<<nz \div 2>>, <<nz - 1>>, <<0, nz - 1>>, <<nz - 1, 1>>, <<1, nz \div 2, nz - 1>>, <<nz \div 2, 0, nz - 1, 1>>}
       [] LevelLists = "pairs"  -> InjSeqs(nz, 2)
       [] LevelLists = "perms"  -> InjSeqs(nz, nz)
       [] LevelLists = "perms3" -> InjSeqs(nz, 3)
@@ -56,6 +57,7 @@ InitSet ==
       [] Family = "linear"    -> {b \in WithFp(WithLevels(Grid)) : Usable(b)}
       [] Family = "translate" -> {b \in WithTower(WithFp(WithLevels(Grid))) : Usable(b)}
       [] Family = "symmetry"  -> {b \in WithFp(WithLevels(Grid)) : Usable(b)}
+      [] Family = "mirror"    -> {b \in WithTower(WithFp(WithLevels(Grid))) : Usable(b) /\ (b.fp \/ (b.xm = 0 /\ b.ym = 0))}
       [] Family = "levels"    -> {b \in WithFp(WithLevels({[x EXCEPT !.bg = 77] : x \in Grid})) : Usable(b)}
       [] Family = "shape"     -> {b \in WithFp(WithLevels(Grid)) : Usable(b)}
 
@@ -326,6 +328,27 @@ MirrorY ==
                     D  == Arr2(vc.ny, vc.nx, LAMBDA j, i : RSub(B[j][i], A[(vc.ny - j) % vc.ny][i]))
                     SD == SpecOf(D, vc.ny, vc.nx)
                 IN  \A l \in 0..(vc.ny - 1), kk \in 0..(vc.nx - 1) : SD[l][kk] # 0 => kk \in NyqX(vc, g) \/ l \in NyqY(vc, g)
+\* Reflection about the centre of the domain, i -> nx-1-i (a mirror followed by a one-cell shift), holds for ANY halo on
+\* the cropped output - but exactly only when the retained spectrum of that axis has no unpaired component (odd count:
+\* an odd padded size with all modes kept).  Source reflected, wind component negated, tower cell reflected.
+MirrorCentreX ==
+    OK /\ (G0.nlx % 2) = 1 =>
+        LET m  == [vc EXCEPT !.src = <<"mircx", vc.src[2], 0>>, !.flip = <<-1, 1, FALSE>>,
+                             !.xm = IF vc.fp THEN ((vc.nx - 1) * vc.ax) - vc.xm ELSE 0]
+            rm == Run(m)
+        IN  /\ rm.err = "none"
+            /\ \A k \in 1..NL, j \in 0..(vc.ny - 1), i \in 0..(vc.nx - 1) :
+                  /\ rm.flx[k][j][i] = vres.flx[k][j][(vc.nx - 1) - i]
+                  /\ rm.conc[k][j][i] = vres.conc[k][j][(vc.nx - 1) - i]
+MirrorCentreY ==
+    OK /\ (G0.nly % 2) = 1 =>
+        LET m  == [vc EXCEPT !.src = <<"mircy", vc.src[2], 0>>, !.flip = <<1, -1, FALSE>>,
+                             !.ym = IF vc.fp THEN ((vc.ny - 1) * vc.ay) - vc.ym ELSE 0]
+            rm == Run(m)
+        IN  /\ rm.err = "none"
+            /\ \A k \in 1..NL, j \in 0..(vc.ny - 1), i \in 0..(vc.nx - 1) :
+                  /\ rm.flx[k][j][i] = vres.flx[k][(vc.ny - 1) - j][i]
+                  /\ rm.conc[k][j][i] = vres.conc[k][(vc.ny - 1) - j][i]
 Transpose ==
     OK /\ vc.halo = 0 =>
         LET t  == [vc EXCEPT !.nx = vc.ny, !.ny = vc.nx, !.ax = vc.ay, !.ay = vc.ax, !.mx = vc.my, !.my = vc.mx,
@@ -399,6 +422,7 @@ Verdicts ==
       [] Family = "translate" -> [ShapeOrError |-> S, TranslateSource |-> S /\ TranslateSource, TranslateTower |-> S /\ TranslateTower,
                                   PointReflect |-> S /\ PointReflect, Recentre |-> S /\ Recentre]
       [] Family = "symmetry"  -> [ShapeOrError |-> S, MirrorX |-> S /\ MirrorX, MirrorY |-> S /\ MirrorY, Transpose |-> S /\ Transpose]
+      [] Family = "mirror"    -> [ShapeOrError |-> S, MirrorCentreX |-> S /\ MirrorCentreX, MirrorCentreY |-> S /\ MirrorCentreY]
       [] Family = "levels"    -> [ShapeOrError |-> S, SlotIsSingle |-> S /\ SlotIsSingle, FullColumnSlice |-> S /\ FullColumnSlice,
                                   NoSilentBroadcast |-> NoSilentBroadcast]
       [] Family = "shape"     -> [ShapeOrError |-> S, LowPass |-> S /\ LowPass, ClampEq |-> S /\ ClampEq]
